@@ -169,6 +169,9 @@ def real_group(rec, modkey, group, quick, parts=("pairs", "scalars", "twist")):
         scalars = [0, 1, 2, 3, r - 1, r, r + 1, 2 * p - r, rng.getrandbits(64), rng.getrandbits(255), rng.getrandbits(381), rng.getrandbits(640) | (1 << 639)]
         n0 = rng.getrandbits(200)
         scalars += [n0, n0 + CG.M61, n0 + 5 * CG.M61]
+        from .common import bit_patterns
+        wide = bit_patterns(640, rng, 2 if quick else 10) + bit_patterns(512, rng, 1 if quick else 6)
+        scalars += wide if not quick else rng.sample(wide, 10)                 # zero / one runs, low Hamming weight, single holes in wide scalars
         es = CG.endo_scalars(r)
         scalars += (es[:6] if quick else es) + list(range(4, 9 if quick else 40))     # eigenvalues of the j = 0 endomorphism, small scalars        # distinct ints with equal hash(): a memo keyed by hash(n) would confuse them
         plist = pts if not quick else [pts[0], pts[5], pts[-1], pts[-2]][: len(pts)]
